@@ -291,6 +291,19 @@ func genScenario(rng *rand.Rand, id string) *scenario {
 			sc.Kids = append(sc.Kids, kc)
 		}
 	}
+	// a cluster-scoped parent may name its children alike in several namespaces: in every second
+	// such scenario the first child of each namespaced kind gets a twin of the same name elsewhere
+	// (decided by the scenario id, so that the rest of the scenario stream is unchanged)
+	if sc.ClusterParent && sim.Hash(strings.TrimRight(id, "abcdefghijklmnopqrstuvwxyz") + "twin")[0] < '8' {
+		seen := map[string]bool{}
+		for _, kd := range append([]kidCfg(nil), sc.Kids...) {
+			if !kindInfo(kd.Kind).Namespaced || seen[kd.Kind] {
+				continue
+			}
+			seen[kd.Kind] = true
+			sc.Kids = append(sc.Kids, kidCfg{Kind: kd.Kind, Name: kd.Name, NS: "cns2-" + id, Value: values[(len(kd.Value)+len(kd.Name))%len(values)]})
+		}
+	}
 	// initial contents
 	roles := []string{"orphan-desired", "orphan-extra", "owned-stale", "owned-drift", "owned-foreignfield", "foreign-lookalike", "other-ns", "nonmatching-orphan"}
 	for _, role := range roles {
